@@ -601,6 +601,16 @@ def case_bnd(R, T, I, case):
             R.label('bnd:%s:%s:%g' % (fn, 'in' if inside else 'out', d)); break
     if flat == 0.0: R.label('bnd:%s:on-limit:constant' % fn)
     f = getattr(T, fn)
+    # call history: in half of the cases (chosen by a stable hash of the case) the same state is first evaluated
+    # WITHOUT range checking - whatever that returns or raises outside the range is not judged - so that an answer
+    # which depends on an earlier call with the other flag (a cache keyed on the state alone) is exposed
+    import zlib, json as _json
+    if zlib.crc32(_json.dumps(case, sort_keys=True).encode()) & 1:
+        R.label('bnd:order:off-then-on')
+        try: f(*args)
+        except Exception: pass
+    else:
+        R.label('bnd:order:on-first')
     with R.lib(fn):
         on = f(*args, bounds=True)
     none = on is None or (isinstance(on, tuple) and all(v is None for v in on))
@@ -619,6 +629,11 @@ def case_bnd(R, T, I, case):
         sig = 'bounds:%s:value-outside' % fn
         if fn == 'supst' and T13 < t <= TC67 and lb23(t) < p <= ksat(t): sig = 'bounds:supst:value-in-subregion3(350-374.15degC)'
         R.check(none, sig, '%s(%s, bounds=True) = %r although the state is outside the documented range' % (fn, state, on))
+    # asking again gives the same answer
+    with R.lib(fn):
+        again = f(*args, bounds=True)
+    none2 = again is None or (isinstance(again, tuple) and all(v is None for v in again))
+    R.check(none2 == none, 'bounds:%s:answer-changes-on-repeat' % fn, '%s(%s, bounds=True) = %r, then %r' % (fn, state, on, again))
 
 
 def case_reg(R, T, I, t, p):
